@@ -537,12 +537,28 @@ class _CTI(Entry):
 
     def spec(self, draw):
         remove = draw(st.sampled_from([None, None, ["c0=a"]]))
-        return dict(cls=self.name, params=dict(columns=draw(st.sampled_from([None, None, ["c0"]])), remove=remove,
+        # explicit column lists may name the columns in another order than the frame's
+        return dict(cls=self.name, params=dict(columns=draw(st.sampled_from([None, None, ["c0"], ["c1", "c0"], ["c0", "c1"]])), remove=remove,
                                                skip_errors=True if remove else draw(st.booleans()), single=False if remove else draw(st.booleans())))
-
 
     def data(self, draw):
         return d_frame(draw, vary_columns=True)
+
+    @staticmethod
+    def _with_columns(est, X):
+        """configuration and frame are drawn independently: a frame lacking a column the configuration names gets it (constant)"""
+        missing = [c for c in (est.columns or []) if c not in X.columns]
+        if missing:
+            X = X.copy()
+            for c in missing:
+                X[c] = pandas.Series(np.array(["a"] * len(X), dtype=object), dtype=object, index=X.index)
+        return X
+
+    def fit(self, est, X, y, w):
+        return est.fit(self._with_columns(est, X) if isinstance(X, pandas.DataFrame) else X)
+
+    def call(self, est, method, Z):
+        return Entry.call(self, est, method, self._with_columns(est, Z) if isinstance(Z, pandas.DataFrame) else Z)
 
 
 @register
